@@ -7,6 +7,7 @@ mod c02;
 mod c04;
 mod c05;
 mod c08;
+mod c09;
 mod c10;
 mod c12;
 mod c20;
@@ -20,11 +21,21 @@ fn main() {
   let id = args[1].as_str();
   let mut tier = std::env::var("VERIF_TIER").unwrap_or_else(|_| "quick".into());
   let mut replay: Option<String> = None;
+  let mut shard: Option<String> = None;
+  let mut one: Option<usize> = None;
   let mut i = 2;
   while i < args.len() {
     match args[i].as_str() {
       "--tier" => {
         tier = args[i + 1].clone();
+        i += 1;
+      }
+      "--shard" => {
+        shard = Some(args[i + 1].clone());
+        i += 1;
+      }
+      "--one" => {
+        one = args[i + 1].parse().ok();
         i += 1;
       }
       "--replay" => {
@@ -53,6 +64,14 @@ fn main() {
       std::process::exit(2)
     })
   });
+  if let Some(range) = shard {
+    let code = match (id, one) {
+      ("C09", Some(idx)) => c09::one(&tier, idx),
+      ("C09", None) => c09::shard(&tier, &range),
+      _ => 2,
+    };
+    std::process::exit(code);
+  }
   let code = match (id, replay_doc) {
     ("C01", None) => c01::run("C01", &tier),
     ("C01", Some(d)) => c01::replay("C01", &d),
@@ -66,6 +85,8 @@ fn main() {
     ("C05", Some(d)) => c05::replay(&d),
     ("C08", None) => c08::run(&tier),
     ("C08", Some(d)) => c08::replay(&d),
+    ("C09", None) => c09::run(&tier),
+    ("C09", Some(d)) => c09::replay(&d),
     ("C10", None) => c10::run(&tier),
     ("C10", Some(d)) => c10::replay(&d),
     ("C12", None) => c12::run(&tier),
